@@ -4,10 +4,20 @@ import LdarModel.Driver.Proto
 Driver for the pending-list / cursor model (C01).
   reset                                   -> ok
   src [[id,start],...]                    -> ok      (append a source; list in pop order)
+  src [[id,start,rate*1024,rep,nrd],...]  -> ok      (the same with the whole identity)
   day <day>                               -> per source "[ids activated]" joined by ';' (state advances)
   run <N> <copied|shared> [[p,..],[..]]   -> per program "p=[[ids of source 0],[..]]" joined by ' '
                                              (from the sources as first given, not the advanced state)
   expected <N>                            -> "[[ids],[..]]"
+  expectedfull <N>                        -> per source "[id:start:rate:rep:nrd:theoEnd|-,...]" joined by ';'
+                                             (`expected`, whole identity + `EmId.theoEnd`)
+  handout <N>                             -> per source "[id@day,...]" joined by ';': the day (0..N-1) on which
+                                             `handedOutOn` hands each emission out
+  runo <N> <copied|shared> <k>            -> k programs on one worker, object level (`runScheduleO`), each with the
+                                             behaviour of the real no-LDAR day loop on a persistent emission
+                                             (`life` = `_active_days`: +1 per day held while
+                                             life + max(0,-start) < nrd): per program "p=[[id/life,..],[..]]"
+                                             joined by ' ' — what each program FACES (objects as found)
 -/
 open LdarModel LdarModel.Heap LdarModel.Proto
 
@@ -18,10 +28,21 @@ structure DS where
 def parseEm (s : String) : Option EmId := do
   match ← intList? s with
   | [i, st] => if i < 0 then none else some { id := i.toNat, start := st }
+  | [i, st, r, rp, nrd] =>
+    if i < 0 then none else some { id := i.toNat, start := st, rate := r, repairable := rp != 0, nrd := nrd }
   | _ => none
 
 def showIds (l : List EmId) : String := showList (fun e => toString e.id) l
 def showSeen (l : List (List EmId)) : String := showList showIds l
+
+def showFull (e : EmId) : String :=
+  let te := match e.theoEnd with | none => "-" | some d => toString d
+  s!"{e.id}:{e.start}:{e.rate}:{if e.repairable then 1 else 0}:{e.nrd}:{te}"
+
+def handout (n : Nat) (s : Src) : String :=
+  showList id (((List.range n).map (fun d => (handedOutOn d s).map (fun e => s!"{e.id}@{d}"))).flatten)
+
+def showObjs (l : List (List EmId)) : String := showList (showList (fun e => s!"{e.id}/{e.life}")) l
 
 def step (s : DS) (toks : List String) : DS × String :=
   match toks with
@@ -39,6 +60,21 @@ def step (s : DS) (toks : List String) : DS × String :=
           listOf? natList? ws with
     | some n, some m, some ws =>
       (s, " ".intercalate ((runSchedule m n ws s.g).map (fun x => s!"{x.1}={showSeen x.2}")))
+    | _, _, _ => (s, "bad-op")
+  | ["expectedfull", n] => match nat? n with
+    | some n => (s, ";".intercalate ((expected n s.g).map (showList showFull)))
+    | none => (s, "bad-op")
+  | ["handout", n] => match nat? n with
+    | some n => (s, ";".intercalate (s.g.map (handout n)))
+    | none => (s, "bad-op")
+  | ["runo", n, m, k] =>
+    match nat? n, (if m = "copied" then some Mode.copied else if m = "shared" then some Mode.shared else none), nat? k with
+    | some n, some m, some k =>
+      let infra : Infra := s.g.zipIdx.map (fun (x, i) => { tag := i, src := x })
+      let ageing : Beh := fun _ _ e =>
+        if (e.life : Int) + (if -e.start > 0 then -e.start else 0) < e.nrd then e.life + 1 else e.life
+      let progs : List (Nat × Beh) := (List.range k).map (fun p => (p, ageing))
+      (s, " ".intercalate ((runScheduleO m n [progs] infra).map (fun x => s!"{x.1}={showObjs x.2}")))
     | _, _, _ => (s, "bad-op")
   | ["expected", n] => match nat? n with
     | some n => (s, showSeen (expected n s.g))
